@@ -6,7 +6,7 @@ from pysym.harness import run_cases
 LEVEL = 'exploration'
 DEDUCTIVE = [('contracts.hashes', ('Element.__hash__', 'Bond.__hash__', 'CANARY')), ('contracts.ringsmorgan', ('_morgan',))]          # (contract module, case-name filter) run by engine P
 FINISH = dict(rule='deductive: one obligation per path / table key; B: see run.bound entries of checks/b01.py',
-              explanation='P: hashed tuples of Element.__hash__/Bond.__hash__ (frame: only the named fields) and neighbour-order independence of one _morgan refinement step (degree<=3), all values; B: renumbering x insertion order x re-spelling relation with symmetry-oracle gap filter',
+              explanation='F: no memoised value read by this property\'s observables survives an edit it depends on (one obligation per covered mutator x cached key); P: hashed tuples of Element.__hash__/Bond.__hash__ (frame: only the named fields) and neighbour-order independence of one _morgan refinement step (degree<=3), all values; B: renumbering x insertion order x re-spelling relation with symmetry-oracle gap filter',
               trusted_base=['CPython', 'z3', 'pysym', 'oracles/iso.py, o01_gaps.py, o01_stereo.py, o01_families.py', 'RDKit (second writer)'])
 replay = make_replay('C01')
 
